@@ -423,7 +423,17 @@ func (s *Scanner) isNewLine(c byte) bool {
 	return true
 }
 
+// maxNestingDepth the deepest nesting of objects and arrays a schema may have.
+// The loader, the compiler, the checker and the example builder are recursive,
+// so without a limit a text made of brackets overflows the stack.
+const maxNestingDepth = 10000
+
 func (s *Scanner) setContext(c context) {
+	if s.prevContextsStack.Len() >= maxNestingDepth {
+		err := kit.NewJSchemaError(s.file, errs.ErrNestingTooDeep.F(maxNestingDepth))
+		err.SetIndex(s.index - 1)
+		panic(err)
+	}
 	s.prevContextsStack.Push(s.context)
 	s.context = c
 }
